@@ -10,6 +10,9 @@ Lemma add_pass_shape x fs fr : fid (add_pass x fs fr) = fid fr /\ fisfunc (add_p
                                /\ fdecl (add_pass x fs fr) = fdecl fr /\ fnarg (add_pass x fs fr) = fnarg fr.
 Proof. unfold add_pass. destruct (existsb _ _); repeat split; reflexivity. Qed.
 
+Lemma add_pass_fnfor x fs fr : fnfor (add_pass x fs fr) = fnfor fr.
+Proof. unfold add_pass. destruct (existsb _ _); reflexivity. Qed.
+
 Lemma add_pass_fund x fs fr e : In e (fund fr) -> In e (fund (add_pass x fs fr)).
 Proof. unfold add_pass. destruct (existsb _ _); [tauto|]. cbn. intros H. apply in_app_iff. left. exact H. Qed.
 
@@ -68,7 +71,7 @@ Proof.
     assert (Hshape : shape (rest ++ (T, prT) :: zpost) = shape (map (pass_frame x (fid T)) rest ++ (decl_frame T decl x, prT) :: zpost))
       by (symmetry; apply shape_declare).
     apply (frame_ok_shape _ _ _ _ Hshape).
-    destruct K as [K1 K2 K3 K4 K5 K6 K7 K8].
+    destruct K as [K1 K2 K3 K4 K5 K6 K7 K8 K9].
     destruct (add_pass_shape x (fid T) g) as (E1 & E2 & E3 & E4).
     constructor.
     + rewrite E3. exact K1.
@@ -85,6 +88,7 @@ Proof.
     + rewrite E4. destruct K7 as [K7a K7b]. destruct (add_pass_narg x (fid T) g (fnarg g) K7a) as [N1 N2].
       split; [exact N1|rewrite N2; exact K7b].
     + rewrite E1. exact K8.
+    + rewrite E2, add_pass_fnfor. exact K9.
 Qed.
 
 Lemma drop_to_pre zpre T prT zpost :
@@ -184,6 +188,7 @@ Proof.
   assert (Hnh : (decl =? VariableDecl) || (decl =? FunctionDecl) = false) by (destruct Hd as [-> | [-> | ->]]; reflexivity).
   rewrite a_declare_unfold, Hnh. rewrite (A_stack _ _ A). cbn [map fst].
   rewrite a_declare_at_ok.
+  2:{ apply for_check_notin. exact Hnot. }
   2:{ intros kk Hin. exfalso. apply Hnot. unfold dnames. apply in_map_iff. exists (x, kk). split; [reflexivity|exact Hin]. }
   destruct (L_declare a [] fr pr rest decl x A) as (A' & Hs & Hfin); try assumption.
   { intros g []. } { intros H. exfalso. apply H. reflexivity. }
@@ -235,6 +240,7 @@ Proof.
   { pose proof (A_frames _ _ A) as Af. rewrite Ez in Af. clear -Af. induction zpre as [|[gg pgg] rst IHz]; cbn in Af; [apply Af|apply IHz; apply Af]. }
   assert (HpnT : In x (pnames prT)) by (unfold pnames; apply in_app_iff; left; exact HpT).
   rewrite a_declare_at_ok.
+  2:{ apply for_check_nofor. apply (K_for _ _ _ KT). exact HfT. }
   2:{ intros kk Hin. destruct (K_decl _ _ _ KT x kk Hin) as [_ Hl]. split; [|destruct Hd as [-> | ->]; unfold VariableDecl, FunctionDecl; lia].
       destruct (Z.le_gt_cases kk ArgumentDecl) as [|Hgt]; [assumption|]. exfalso.
       apply (K_disj _ _ _ KT x); [apply Hl; lia|exact HpT]. }
